@@ -7,6 +7,7 @@
  *                                  `<path>#` its clones); `-` removes the script
  *   cfg [nobb] [noroot] [simul]    first line of a case: master without get_bb_uid() / get_root_uid(), simul_efun object
  *                                  /c20/simul registered as actor `se` (the plugin runs the case with the matching conf)
+ *   do m preload,<path>            the driver's preload_objects(): master epilog() names the file, master preload() loads it
  *   do <oid> later,<op> | hb,<op>  the op is scheduled with call_out / runs in the object's next heart_beat; one backend tick
  *   do <oid> <op>                  run one op (see harness/mudlib/c20/body.h) in the object registered as <oid>
  *                                  (`m` = the master object), then log getuid/geteuid of every registered object
@@ -78,6 +79,11 @@ static int c20_cmd (char *line)
       object_t *reg = vh_obj ("reg");
       if (!reg || vh_apply_str (reg, "act", 2, tok + 1, 0, 0))
         vh_out ("r !harness");
+      else if (!strcmp (tok[1], "m") && !strncmp (tok[2], "preload,", 8))
+        {
+          eval_cost = CONFIG_INT (__MAX_EVAL_COST__);
+          preload_objects (0);      /* the driver's own preload loop: master epilog(), then master preload(file) */
+        }
       else if (!strncmp (tok[2], "later,", 6) || !strncmp (tok[2], "hb,", 3))
         {
           c20_tick ();
